@@ -53,6 +53,7 @@ class Account(object):
         from yowsup.layers.interface import YowInterfaceLayer, ProtocolEntityCallback
         from yowsup.stacks import YowStack, YowStackBuilder
         acc, world = self, self.world
+        self.close_db()            # the previous process of this account is gone: so are its database connections
         self.boots += 1
 
         class Wire(YowLayer):
@@ -113,6 +114,16 @@ class Account(object):
         self.disconnect_requested = self.connect_requested = False
         self.login()
 
+    def close_db(self):
+        """Close the key store connection of the current manager (thousands of worlds are built in one run)."""
+        prof = getattr(self, "profile", None)
+        mgr = getattr(prof, "_axolotl_manager", None) if prof is not None else None
+        try:
+            if mgr is not None:
+                mgr._store.identityKeyStore.dbConn.close()
+        except Exception:
+            pass
+
     def emit(self, name, **kw):
         from yowsup.layers import YowLayerEvent
         self.stack.emitEvent(YowLayerEvent(name, **kw))
@@ -152,6 +163,7 @@ class Account(object):
         import shutil
         from yowsup.common.tools import StorageTools
         d = os.path.dirname(StorageTools.constructPath(self.phone, "axolotl.db"))
+        self.close_db()
         self.stack = None
         self.profile = None
         shutil.rmtree(d, ignore_errors=True)
@@ -637,6 +649,7 @@ class World(object):
         import shutil
         from yowsup.common.tools import StorageTools
         for a in self.accounts:
+            a.close_db()
             a.stack = None
             a.profile = None
             try:
